@@ -145,7 +145,7 @@ impl Numeric {
                         if den > BigInt::from(1_000u64) || num > BigInt::from(1_000_000u64) {
                             (None, Some(v))
                         } else {
-                            (Some(format!("{}/{}", num, den)), Some(v))
+                            (Some(rational.to_fraction(base)), Some(v))
                         }
                     }
                 }
